@@ -266,5 +266,11 @@ func (*treePipeline) handlePipelineErr(ctx context.Context, echs ...<-chan error
 			return nil
 		})
 	}
-	return eg.Wait()
+	if err := eg.Wait(); err != nil {
+		return err
+	}
+	// A stage closes its error channel when it stops, also when it stops because the operation
+	// was cancelled. A collector may see the closed channel before it sees the cancellation,
+	// so "no stage reported an error" is a success only if the operation was not cancelled.
+	return ctx.Err()
 }
